@@ -445,6 +445,51 @@ func FileClose(f *os.File) error {
 // sees the two accesses of a race before an unrelated synchronisation inside the standard library
 // (regexp's and fmt's sync.Pool) has accidentally ordered them.
 
+// ---- channel seam ------------------------------------------------------------------
+//
+// A channel operation of the library that cannot proceed at once must not block the goroutine for real while it holds the
+// simulator's baton: the peer it waits for may be another task, which then never runs. PollHook, when installed, is asked
+// after each fruitless attempt; it hands the baton to the other tasks and returns true, or returns false when the caller is
+// no scheduled task (or has polled for too long: the peer is a goroutine the library started itself) - then the operation
+// blocks for real, as it would without the simulator.
+var PollHook func() bool
+
+// Recv is <-ch.
+func Recv[T any](ch <-chan T) T {
+	v, _ := Recv2(ch)
+	return v
+}
+
+// Recv2 is v, ok := <-ch.
+func Recv2[T any](ch <-chan T) (T, bool) {
+	for {
+		select {
+		case v, ok := <-ch:
+			return v, ok
+		default:
+		}
+		if h := PollHook; h == nil || !h() {
+			v, ok := <-ch
+			return v, ok
+		}
+	}
+}
+
+// Send is ch <- v.
+func Send[T any](ch chan<- T, v T) {
+	for {
+		select {
+		case ch <- v:
+			return
+		default:
+		}
+		if h := PollHook; h == nil || !h() {
+			ch <- v
+			return
+		}
+	}
+}
+
 // PointHook is called at every preemption point while a simulation is running.
 var PointHook func()
 
